@@ -1198,7 +1198,7 @@ theorem ginv_step {s : State} (g : GInv s) (op : Op) : GInv (step s op) := by
         split at hw <;> cases hw
       · exact g
   | registerWait id =>
-    simp only [step]
+    simp only [step, registerWait]
     cases hr : s.readers id with
     | none => exact g
     | some r =>
@@ -1217,7 +1217,7 @@ theorem ginv_step {s : State} (g : GInv s) (op : Op) : GInv (step s op) := by
               (fun hn => ⟨(by intro hh; cases hh), fun _ => heff hn⟩) (by intro hh; cases hh) (fun _ => hlim))
             (by intro h; cases h)
         · rename_i hc
-          simp only [Gen.HWReader.waitRecheckCmp, Cmp.evalInt, decide_eq_true_eq, ne_eq, Decidable.not_not] at hc
+          simp only [Gen.HWReader.waitRechecks, Bool.true_and, Gen.HWReader.waitRecheckCmp, Cmp.evalInt, decide_eq_true_eq, ne_eq, Decidable.not_not] at hc
           split
           · exact ginv_setReader g hnw
               (rinv_fail ri "readonly" (fun hn _ => heff hn) (fun _ => hlim))
@@ -1435,7 +1435,7 @@ theorem step_hw_le (s : State) (op : Op) : s.log.hw ≤ (step s op).log.hw := by
     simp only [step]
     cases s.readers id <;> simp only <;> (try split) <;> exact Int.le_refl _
   | registerWait id =>
-    simp only [step]
+    simp only [step, registerWait]
     cases s.readers id <;> simp only <;> (repeat' split) <;> exact Int.le_refl _
   | resync id =>
     simp only [step]
@@ -1481,7 +1481,7 @@ theorem step_frame (s : State) (op : Op) {id : Nat} (hop : op.reader = some id) 
       (constructor <;> first | trivial | rfl | (intro j hj; simp [setReader, hj]))
   | registerWait id' =>
     injection hop with hop; subst hop
-    simp only [step]
+    simp only [step, registerWait]
     cases s.readers id' <;> simp only <;> (repeat' split) <;>
       (constructor <;> first | trivial | rfl | (intro j hj; simp [setReader, hj]))
   | resync id' =>
@@ -1550,7 +1550,7 @@ theorem step_changes {s : State} {id : Nat} {r : Reader} {op : Op} (g : GInv s)
     split at this <;> (rw [hp] at this; cases this)
   | mustWait =>
     rw [hp] at hop; injection hop with hop; subst hop
-    simp only [step, hr, hp, if_true]
+    simp only [step, registerWait, hr, hp, if_true]
     split
     · rw [setReader_self]
       intro h; injection h with h
@@ -1928,7 +1928,7 @@ theorem linv_step {s : State} (g : GInv s) (li : LInv s) {op : Op} (d : Discipli
         · intro e hh; unfold checkHW at hh; split at hh <;> cases hh
       · exact li
   | registerWait id =>
-    simp only [step]
+    simp only [step, registerWait]
     cases hr : s.readers id with
     | none => exact li
     | some r =>
@@ -1995,5 +1995,126 @@ theorem linv_run {s : State} (g : GInv s) (li : LInv s) {ops : List Op} (d : Dis
   induction ops generalizing s with
   | nil => exact li
   | cons op ops ih => exact ih (ginv_step g op) (linv_step g li d.1) d.2
+
+/-! ### What the re-check of `waitForHW` is for: the variant without it -/
+
+theorem stepWith_gen (s : State) (op : Op) : stepWith Gen.HWReader.waitRechecks s op = step s op := by
+  cases op <;> rfl
+
+theorem runWith_gen (s : State) (ops : List Op) : runWith Gen.HWReader.waitRechecks s ops = run s ops := by
+  induction ops generalizing s with
+  | nil => rfl
+  | cons op ops ih => simp only [runWith, run, List.foldl_cons, stepWith_gen] at *; exact ih _
+
+/-- Operations after which nobody notifies the registered waiters: everything except an effective
+HW advance, a change of the read-only flag, and the cancellation of reader `id`'s own context. -/
+def Quiet (id : Nat) (s : State) : Op → Prop
+  | .setHW h => h ≤ s.log.hw
+  | .followerHW h => followerArg s.log h ≤ s.log.hw
+  | .setReadonly _ => False
+  | .cancel j => j ≠ id
+  | _ => True
+
+def QuietRun (b : Bool) (id : Nat) : State → List Op → Prop
+  | _, [] => True
+  | s, op :: ops => Quiet id s op ∧ QuietRun b id (stepWith b s op) ops
+
+theorem setHW_noop {s : State} {h : Int} (hle : h ≤ s.log.hw) : HWReader.setHW s h = s := by
+  unfold HWReader.setHW
+  have : Gen.Log.setHWCmp.evalInt h s.log.hw = false := by
+    simp only [Gen.Log.setHWCmp, Cmp.evalInt, decide_eq_false_iff_not]; omega
+  rw [this]; rfl
+
+/-- A PARKED reader stays exactly as it is — and the HW stays where it is — under every quiet
+operation, whether or not `waitForHW` re-checks (the re-check concerns only the moment of parking):
+appends, rolls, other readers and its own scheduling do not wake it. -/
+theorem parked_stays (b : Bool) {s : State} {id : Nat} {r : Reader} (op : Op)
+    (hr : s.readers id = some r) (hw : r.phase = .waiting) (q : Quiet id s op) :
+    (stepWith b s op).readers id = some r ∧ (stepWith b s op).log.hw = s.log.hw := by
+  cases op with
+  | append rs =>
+    show (step s (.append rs)).readers id = some r ∧ (step s (.append rs)).log.hw = s.log.hw
+    simp only [step]
+    split
+    · split
+      · rename_i l' offs ha
+        exact ⟨hr, appendSet_hw ha⟩
+      · exact ⟨hr, rfl⟩
+    · exact ⟨hr, rfl⟩
+  | roll =>
+    show (step s .roll).readers id = some r ∧ (step s .roll).log.hw = s.log.hw
+    simp only [step]; split <;> exact ⟨hr, rfl⟩
+  | setHW h =>
+    show (step s (.setHW h)).readers id = some r ∧ (step s (.setHW h)).log.hw = s.log.hw
+    simp only [step, setHW_noop (show h ≤ s.log.hw from q)]; exact ⟨hr, trivial⟩
+  | followerHW h =>
+    show (step s (.followerHW h)).readers id = some r ∧ (step s (.followerHW h)).log.hw = s.log.hw
+    simp only [step, setHW_noop (show followerArg s.log h ≤ s.log.hw from q)]; exact ⟨hr, trivial⟩
+  | setReadonly _ => exact False.elim q
+  | newReader j start =>
+    show (step s (.newReader j start)).readers id = some r ∧ (step s (.newReader j start)).log.hw = s.log.hw
+    by_cases hj : j = id
+    · subst hj; simp [step, hr]
+    · have f := step_frame s (.newReader j start) (id := j) rfl
+      exact ⟨by rw [f.2 id (Ne.symm hj)]; exact hr, by rw [f.1]⟩
+  | initReader j =>
+    show (step s (.initReader j)).readers id = some r ∧ (step s (.initReader j)).log.hw = s.log.hw
+    by_cases hj : j = id
+    · subst hj; simp [step, hr, hw]
+    · have f := step_frame s (.initReader j) (id := j) rfl
+      exact ⟨by rw [f.2 id (Ne.symm hj)]; exact hr, by rw [f.1]⟩
+  | beginRead j =>
+    show (step s (.beginRead j)).readers id = some r ∧ (step s (.beginRead j)).log.hw = s.log.hw
+    by_cases hj : j = id
+    · subst hj; simp [step, hr, hw]
+    · have f := step_frame s (.beginRead j) (id := j) rfl
+      exact ⟨by rw [f.2 id (Ne.symm hj)]; exact hr, by rw [f.1]⟩
+  | readStep j =>
+    show (step s (.readStep j)).readers id = some r ∧ (step s (.readStep j)).log.hw = s.log.hw
+    by_cases hj : j = id
+    · subst hj; simp [step, hr, hw]
+    · have f := step_frame s (.readStep j) (id := j) rfl
+      exact ⟨by rw [f.2 id (Ne.symm hj)]; exact hr, by rw [f.1]⟩
+  | checkHW j =>
+    show (step s (.checkHW j)).readers id = some r ∧ (step s (.checkHW j)).log.hw = s.log.hw
+    by_cases hj : j = id
+    · subst hj; simp [step, hr, hw]
+    · have f := step_frame s (.checkHW j) (id := j) rfl
+      exact ⟨by rw [f.2 id (Ne.symm hj)]; exact hr, by rw [f.1]⟩
+  | resync j =>
+    show (step s (.resync j)).readers id = some r ∧ (step s (.resync j)).log.hw = s.log.hw
+    by_cases hj : j = id
+    · subst hj; simp [step, hr, hw]
+    · have f := step_frame s (.resync j) (id := j) rfl
+      exact ⟨by rw [f.2 id (Ne.symm hj)]; exact hr, by rw [f.1]⟩
+  | cancel j =>
+    show (step s (.cancel j)).readers id = some r ∧ (step s (.cancel j)).log.hw = s.log.hw
+    have hj : j ≠ id := q
+    have f := step_frame s (.cancel j) (id := j) rfl
+    exact ⟨by rw [f.2 id (Ne.symm hj)]; exact hr, by rw [f.1]⟩
+  | registerWait j =>
+    by_cases hj : j = id
+    · subst hj; simp [stepWith, hr, hw]
+    · simp only [stepWith]
+      cases hrj : s.readers j with
+      | none => exact ⟨hr, rfl⟩
+      | some rj =>
+        simp only
+        split
+        · unfold registerWait
+          repeat' split
+          all_goals (constructor <;> first | rfl | (simp [setReader, Ne.symm hj, hr]))
+        · exact ⟨hr, rfl⟩
+
+theorem parked_stays_run (b : Bool) {id : Nat} {r : Reader} (ops : List Op) {s : State}
+    (hr : s.readers id = some r) (hw : r.phase = .waiting) (q : QuietRun b id s ops) :
+    (runWith b s ops).readers id = some r ∧ (runWith b s ops).log.hw = s.log.hw := by
+  induction ops generalizing s with
+  | nil => exact ⟨hr, rfl⟩
+  | cons op ops ih =>
+    obtain ⟨h1, h2⟩ := parked_stays b op hr hw q.1
+    have := ih h1 q.2
+    simp only [runWith, List.foldl_cons] at this ⊢
+    exact ⟨this.1, by rw [this.2, h2]⟩
 
 end Liftbridge.Proofs.HWReader
